@@ -318,6 +318,42 @@ def check_after(rep, prog, fn, call):
                               key='R03d|%s|%s' % (fn.g, v['name']))
             else:
                 rep.ok('R03d', call, fn, what)
+            # R03f: the elements sit in completion order (whichever task pushed first), not in index order: a later loop must not pair them by
+            # position with an index-ordered sequence (another container walked in step, or indexed with the same counter)
+            whatf = 'the elements of %s (completion order) are not paired by position with another sequence' % v['name']
+            for lp in fn.walk():
+                if lp.k not in ('CXXForRangeStmt', 'ForStmt', 'WhileStmt') or lnode.is_ancestor_of(lp) or not cfg.reaches(call, lp):
+                    continue
+                hdr = lp.role('range') if lp.k == 'CXXForRangeStmt' else (lp.role('init') if lp.k == 'ForStmt' else lp.cond)
+                if hdr is None or not any(x.k == 'DeclRefExpr' and x.decl_id == root for x in hdr.walk()):
+                    if not (lp.k == 'ForStmt' and lp.cond is not None and any(x.k == 'DeclRefExpr' and x.decl_id == root for x in lp.cond.walk())):
+                        continue
+                body = lp.body if getattr(lp, 'body', None) is not None else lp
+                own = set()
+                for part in (lp.role('init') if lp.k == 'ForStmt' else None, lp.role('loopvar') if lp.k == 'CXXForRangeStmt' else None):
+                    if part is not None:
+                        own |= {x.decl_id for x in part.walk() if x.k == 'VarDecl'}
+                        own |= {ex.var_of(x.c[0]) for x in part.walk() if x.k == 'BinaryOperator' and x.op == '=' and x.c}
+                paired = None
+                for x in body.walk():
+                    # another sequence walked in step: an iterator that is not the loop's own is advanced / an index of the loop addresses another container
+                    if x.k in ('UnaryOperator', 'CXXOperatorCallExpr') and x.op in ('++', '--'):
+                        iv = ex.var_of(x.c[-1] if x.k == 'UnaryOperator' else x.c[1])
+                        if iv is not None and iv not in own and prog.vars[iv].get('kind') == 'local':
+                            d0 = [rhs for (dn, rhs) in ex.assignments_to(fn, iv) if dn.k == 'VarDecl' and rhs is not None]
+                            src = d0[0].strip_all() if d0 else None
+                            if src is not None and src.k == 'CXXMemberCallExpr' and src.callee and src.callee['name'] in ('begin', 'cbegin') and \
+                                    src.object_arg() is not None and ex.var_of(src.object_arg()) not in (None, root):
+                                paired = (x, prog.vars[ex.var_of(src.object_arg())]['name'])
+                    if x.k == 'CXXOperatorCallExpr' and x.op == '[]' and len(x.c) == 3 and ex.var_of(x.c[2]) in own and \
+                            ex.var_of(x.c[1]) not in (None, root) and lp.k == 'ForStmt':
+                        paired = (x, prog.vars[ex.var_of(x.c[1])]['name'])
+                if paired:
+                    rep.violation('R03f', paired[0], fn, whatf, 'the loop at line %d walks `%s` and `%s` in step (`%s`): element j of the concurrently filled container belongs to '
+                                  'whichever task finished j-th, not to index j - with more than one worker the pieces are combined with the wrong partner' % (
+                                      lp.line, v['name'], paired[1], paired[0].text(30)), key='R03f|%s|%s' % (fn.g, v['name']))
+                else:
+                    rep.ok('R03f', lp, fn, whatf, 'loop at line %d reads the container alone' % lp.line)
 
 
 def run(rep, tier):
@@ -325,6 +361,7 @@ def run(rep, tier):
     rep.rule('R03b', 'reduction identity and join', floor=11)
     rep.rule('R03c', 'reduce body folds from its accumulator under the min-update contract', floor=6)
     rep.rule('R03d', 'grown concurrent containers are read after the parallel_for', floor=2)
+    rep.rule('R03f', 'concurrently filled containers are consumed as unordered collections (no pairing by position)', floor=0)
     rep.rule('R03e', 'per-index work is independent of the range split and of inter-task timing', floor=10)
     tus = [env.witness_tu()]
     if tier == 'thorough':
